@@ -916,7 +916,8 @@ pub(crate) fn process_all_cqes(
             }
             if let Some(mailbox) = mailbox_for_close_notify {
               let endpoint_uri = endpoint_uri_for_notify.unwrap_or_default();
-              let _ = mailbox.try_send(Command::UringFdError {
+              // through a short-lived clone, so that no queue nodes stay cached in a long-lived sender
+              let _ = mailbox.clone().try_send(Command::UringFdError {
                 endpoint_uri,
                 error: ZmqError::ConnectionClosed,
               });
